@@ -3,15 +3,102 @@ from harness import pm_prop
 
 PROPERTY = 'C05'
 LEAN_PROPS = 'PlumpyModel.Props.C05'
-ASSUMPTIONS = pm_prop.ASSUMPTIONS
-TRUSTED = pm_prop.TRUSTED
+ASSUMPTIONS = pm_prop.ASSUMPTIONS + [
+    'status stream: the calls of set_status / on_paused(msg) / on_playing recorded on the real process (passive overrides of '
+    'the generated class) are replayed through the status model `pmodel status` and the status after each call is compared; '
+    'schedules place <= 3 (4 thorough) of pause / play / set_status(x) / set_status(None) requests, the process starting with '
+    'and without a status message']
+TRUSTED = pm_prop.TRUSTED + [
+    'status model lean/PlumpyModel/Status/Model.lean (hand-written mirror of set_status / on_paused / on_playing), compared '
+    'with the real status after every recorded hook call']
 ALPHABET = ['pause', 'play', 'resume', 'complete']
 MONITORS = ['c05', 'c05-transparent', 'c05-status']
+STATUS_OPS = ['pause', 'play', 'setstatus x', 'setstatus -']
+STATUS_PROGRAMS = ['Sync2', 'Async2', 'Waiter', 'WaitAsync', 'Chain']
+
+
+def _tok(v):
+    return '-' if v is None else '=' + str(v).replace(' ', '_')
+
+
+def _status_case(item):
+    """-> (model line, impl tokens, failures of the property's clause decided on the recorded calls alone)"""
+    from harness import pm
+    name, prog, sched, status0 = item
+    r = pm.run_schedule(prog, sched, status0=status0)
+    evs = list(r.p.__dict__.get('_status_ev', []))
+    r.close()
+    line = ' '.join(('Y' if k == 'Y' else k + _tok(a)) for k, a, _s in evs)
+    impl = ' '.join(_tok(s) for _k, _a, s in evs)
+    fails = []
+    before_pause, prev = None, None       # status just before the most recent on_paused / after the previous call
+    armed = False
+    for k, a, s in evs:
+        if k == 'P':
+            before_pause, armed = prev, True
+        elif k == 'Y':
+            if armed and s != before_pause:
+                fails.append(dict(signature='c05-status-not-restored', clause='the status message present before the pause is restored by play',
+                                  detail=dict(before_pause=before_pause, after_play=s, calls=[(k2, a2) for k2, a2, _ in evs]),
+                                  case=dict(program=name, prog=prog, schedule={str(k3): v for k3, v in sched.items()}, status0=status0,
+                                            status_stream=True)))
+                break
+            armed = False
+        prev = s
+    return line, impl, fails, len(evs)
+
+
+def _status_cases(ctx):
+    from harness import pm
+    cases = []
+    K = 4 if ctx.thorough else 3
+    for name in STATUS_PROGRAMS:
+        prog = pm.CORPUS[name]
+        npos = min(pm.n_positions(prog), 6)
+        for sched in pm.schedules(npos, STATUS_OPS, K):
+            if not any(o == 'pause' for ops in sched.values() for o in ops):
+                continue
+            for status0 in ('s0', None):
+                cases.append((name, prog, dict(sched), status0))
+    return cases
 
 
 def run(ctx):
-    return pm_prop.run_pm(ctx, ALPHABET, MONITORS, k_quick=4, k_thorough=5, listeners=True)
+    import multiprocessing as mp
+    out = pm_prop.run_pm(ctx, ALPHABET, MONITORS, k_quick=4, k_thorough=5, listeners=True)
+    cases = _status_cases(ctx)
+    if not ctx.thorough and len(cases) > 30000:
+        cases = ctx.rng.sample(cases, 30000)
+    with mp.Pool(ctx.workers) as pool:
+        res = pool.map(_status_case, cases, chunksize=200)
+    lines = [r[0] for r in res]
+    chunks = [lines[i:i + 5000] for i in range(0, len(lines), 5000)]
+    outs = ctx.model.run_parallel('status', chunks) if lines else []
+    model = [l for ch in outs for l in ch] if outs is not None else None
+    ndiv = 0
+    for (name, prog, sched, status0), (line, impl, fails, _n), m in zip(cases, res, model if model is not None else [None] * len(res)):
+        out['failures'].extend(fails)
+        if m is not None and m.strip() != impl.strip():
+            ndiv += 1
+            if ndiv <= 50:
+                out['divergences'].append(dict(case=dict(program=name, prog=prog, schedule={str(k): v for k, v in sched.items()},
+                                                         status0=status0, status_stream=True), line=line, impl=impl, model=m))
+    out['evaluations'] += len(cases)
+    if model is not None:
+        out['traces_validated'] = out.get('traces_validated', 0) + len(cases)
+    hooks = sum(r[3] for r in res)
+    out['histograms']['status_stream'] = dict(cases=len(cases), hook_calls_replayed=hooks, divergences=ndiv,
+                                              paused_with_message_and_no_status=sum(1 for r in res if ' P=' in ' ' + r[0] and r[0].startswith('P')))
+    return out
 
 
 def replay(ctx, failure):
+    case = failure['case']
+    if case.get('status_stream'):
+        from harness import pm
+        prog, sched = pm.fix_case(case)
+        line, impl, fails, _n = _status_case((case.get('program'), prog, sched, case.get('status0')))
+        m = ctx.model.run('status', [line])
+        return dict(line=line, impl=impl, model=m[0] if m else None,
+                    failures=[dict(signature=f['signature'], clause=f['clause'], detail=str(f['detail'])[:500]) for f in fails])
     return pm_prop.replay_pm(ctx, failure, MONITORS)
